@@ -223,7 +223,8 @@ CHECKS = {
         engine="connprop",
         technique=("model-based property testing (rapid) with the schedule as generated data: every case runs in a synctest bubble, one step at a time to quiescence, "
                    "with a scripted dial function and the gates conn.dial.result / conn.wait; oracle = per-address generation model (pending dial, sharers, holders) "
-                   "compared with returned connections, errors, dial-function invocations and connectivity state after every step"),
+                   "compared with returned connections, errors, dial-function invocations and connectivity state after every step; "
+                   "Close() calls made by the scenario itself are recorded, so a manager close is told from a holder's close"),
         level_text=("Generated scenarios (1-3 addresses, 2-8 requester threads, 1-42 steps: Connection() calls with background / own / already cancelled contexts and an optional "
                     "unknown dialer name, releases, repeated releases, calls of the done func returned with an error, dial function told to return a fresh idle grpc.NewClient "
                     "connection or an error (at once or in a later step), context cancellations, parks and releases at conn.wait and conn.dial.result) are executed against the real "
@@ -233,7 +234,14 @@ CHECKS = {
                     "or nil with an error; never (nil, nil); not before the dial finished; not blocked after it finished); a connection is not SHUTDOWN while a sharer is still inside "
                     "Connection() or holds it unreleased, and is SHUTDOWN right after the step in which the last of them released it; double releases and done funcs of failed requests "
                     "return without panic and change none of this, in particular for a successor generation registered under the same address. A fixed epilogue opens every gate, lets "
-                    "every parked dial succeed and releases every handle, so a leaked reference shows as a connection that is never closed. Bounded random exploration, not a proof."),
+                    "every parked dial succeed and releases every handle, so a leaked reference shows as a connection that is never closed. "
+                    "Outside events (part outside; one scenario in three of random, wide and storm; every fourth stress round): holders and ex-holders call Close() on the connection they were handed "
+                    "(while others hold it, before or after their own release, long after it was forgotten), a dial function hands back a connection it closed itself, Connect() / ResetConnectBackoff() / "
+                    "server-side drops / virtual time take handed-out connections through CONNECTING, TRANSIENT_FAILURE, READY (a gRPC server inside the bubble) and back to IDLE, and one done func is "
+                    "called from 2-4 goroutines at once. The model keeps one generation per hand-out: a connection that the scenario closed is excused from 'not SHUTDOWN while held' and a request for its "
+                    "address may share it or dial afresh (neither is demanded), but every hand-out - also one dialled while the dead connection is still held - must stay open until ITS holders released it, "
+                    "be closed and forgotten at ITS last release, and no release of another generation may touch it; connections the scenario did not close obey every clause in every connectivity state. "
+                    "Bounded random exploration, not a proof."),
         level_note=("trusts the ~150-line generation model in connprop/run.go; 'closed exactly once' is decided as: open while held, SHUTDOWN at zero, forgotten afterwards, no later release "
                     "touches the successor (a second Close of the same *grpc.ClientConn is not observable through the exported API); calls are serialised by quiescence, the only "
                     "intra-call windows explored are the two gates (caller registered but not yet waiting; dial function returned but result unpublished); the scripted dial function "
@@ -243,9 +251,13 @@ CHECKS = {
                     "scenario written beforehand"),
         rule=("cases are scenarios (addresses, threads, step list); non-trivial = during the generated steps (epilogue excluded) some connection had >=2 holders that had returned from "
               "Connection() and not yet released it AND >=1 invocation of the dial function ended with an error or was cancelled and that failure was published; "
-              "distinct = distinct hash of the scenario"),
+              "distinct = distinct hash of the scenario; the labels prefixed 'outside:' count the cases in which a connection was closed by a holder / by the dial function, was held in a "
+              "non-idle connectivity state, or was released from several goroutines at once"),
         assumptions=COMMON + [SYNCTEST_ASSUMPTION,
                               "connections are idle grpc.NewClient(\"passthrough:///<addr>\") clients with insecure credentials: no network; closed is observed as connectivity.Shutdown",
+                              "who closed a connection is decided by bookkeeping: the scenario records each of its own Close() calls before making it; a connection found SHUTDOWN while held that the scenario did not close was closed by the manager. "
+                              "After a scenario-side Close the documentation does not say whether the dead connection is shared until its last release (what the code does) or replaced: both are accepted; a request answered with an error there is not counted as a holder. "
+                              "Transports of connected clients are refused, hang, or are net.Pipe connections to a service-less grpc.Server inside the bubble",
                               "one dialer (DEFAULT) per manager plus an unregistered dialer name; dial functions return either a non-nil connection or a non-nil error",
                               "in the stepwise parts every done func is called from one goroutine at a time (releases are separate steps; the stress, storm and convoy parts call one done func from several goroutines at once); in the stepwise parts races between Connection() and done() are serialised by "
                               "the manager's mutex and are explored only through the two gates"],
@@ -269,6 +281,10 @@ CHECKS = {
             # dial errors whose Error() method parks (harness call-back reached wherever the Manager formats the error; glog verbosity 0-5 is generated): waves of requests, each
             # launched the moment the previous wave has returned, more requests while a formatting call is parked
             dict(name="parked", run="TestC16Parked", checks=dict(quick=600, thorough=8000), shards=dict(quick=1, thorough=4)),
+            # things that happen to a handed-out connection OUTSIDE the manager (stepwise, exact model; also sprinkled into random / wide / storm / stress): a holder or ex-holder
+            # calls Close() on the *grpc.ClientConn it was handed, a dial function hands back a connection it closed itself, Connect()/ResetConnectBackoff()/virtual time take the
+            # connection through CONNECTING / TRANSIENT_FAILURE / READY (in-bubble gRPC server over net.Pipe) / IDLE, one done func called from several goroutines at once
+            dict(name="outside", run="TestC16Outside", checks=dict(quick=3000, thorough=30000), shards=dict(quick=1, thorough=8)),
         ],
     ),
     "C04": dict(
@@ -412,6 +428,7 @@ CHECKS = {
             dict(name="shapes", run="TestC20Shapes", checks=dict(quick=1500, thorough=6000), shards=dict(quick=4, thorough=16)),
             dict(name="edges", run="TestC20Edges", checks=dict(quick=3000, thorough=30000), shards=dict(quick=2, thorough=8)),
             dict(name="syncs", run="TestC20Syncs", checks=dict(quick=4000, thorough=30000), shards=dict(quick=2, thorough=8)),
+            dict(name="session", run="TestC20Session", checks=dict(quick=2500, thorough=20000), shards=dict(quick=2, thorough=8)),
         ],
     ),
     "C19": dict(
@@ -827,6 +844,8 @@ EXT3 = {
                             "(cache.GetTarget(x).GnmiUpdate): stored in x's tree, every response built from them still names the prefix target, so a caller authorised for x and denied the named "
                             "target must not be sent them (single-target and all-targets subscriptions alike)."),
                 level_note="; scenarios with such a foreign write are judged by the trace monitors only (nothing denied is ever handed to Send; status codes), convergence is not defined for them"),
+    "C12": dict(level_text=(" Every rapid part draws the process's glog verbosity (-v 0-3) per case: the diagnostics inside `if log.V(n)` blocks format the very messages a peer sent "
+                            "(about a third of the cases run with verbosity > 0).")),
     "C08": dict(level_text=(" Third structured shape (an eighth of the cases): a POLL client that stops reading and keeps sending 1-300 poll triggers (letting a send pass now and then) against an "
                             "unchanging cache, next to other subscribers: what it is sent after its last trigger is bounded by the distinct matching leaves + the response in flight + one sync marker, "
                             "whatever the number of triggers; or it stays away and the next sleep step judges the send timeout of the POLL subscription.")),
